@@ -27,8 +27,9 @@ options struct): the state that is optimised and written is built by `from_group
 group and shape only, so a file passed there cannot relabel the output -/
 theorem declared_start_config_unused : Generated.cliStartConfigUses = 1 := by decide
 
-/-- the order `.max()` uses: both state types compare their scores as floating-point numbers
-(`s.partial_cmp(&o)`), `Ord::cmp` is that comparison unwrapped — the model's `maxRight` -/
+/-- the order `.max()` uses: both state types implement `PartialOrd` and `Ord`; the bodies of these impls
+are regenerated from the source and proved to be the order by score with `cmp` the unwrapped comparison —
+the model's `maxRight` is `std::cmp::max` for them (Proofs/TieCmp.lean) -/
 theorem declared_ordering :
     Generated.stateOrderByScore = [("PackedState", true), ("PotentialState", true)] :=
   rfl
